@@ -133,8 +133,9 @@ Inductive dynfault :=
 | DynHandle         (* a stale ClosureIdx / HeapIdx / ArrayIdx is dereferenced, or the object is smaller than the access:
                        get_closure (assertion of the verif build, unchecked access otherwise), drop_closure's unwrap,
                        `expect("BoxLoad: invalid heap index")`, data[..inner_size], "Invalid indirect callable" *)
-| DynUpvalue        (* the content of an upvalue cell does not fit: an open cell points outside the value stack
-                       (get_open_upvalue reads through a raw pointer), a closure-typed cell has no word (data[0]),
+| DynUpvalue        (* the content of an upvalue cell does not fit: an open cell that is being closed or written points
+                       outside the value stack (get_open_upvalue reads through a raw pointer), a closure-typed cell has no
+                       word (data[0]),
                        SetUpValue on a closed cell of another width (copy_from_slice) *)
 | DynSignature      (* strict: the function behind an indirect callee does not fit the call site (parameter words,
                        result words, a plain function that expects upvalues or more state than the caller has left) *)
@@ -164,10 +165,7 @@ Inductive fault :=
 
 Definition is_dyn (f : fault) : bool := match f with Dyn _ => true | _ => false end.
 
-(* UnsupStackAlias: GetUpValue of an OPEN upvalue hands set_vec_range a slice that points into the value stack; when the
-   write has to grow the stack (destination above the top, or several words pushed at the top) Vec::resize / push may
-   reallocate it and the slice is read after the free: the behaviour of the real VM is undefined there *)
-Inductive unsup := UnsupInstr | UnsupExt | UnsupNretFallback | UnsupBoxed | UnsupStackAlias.
+Inductive unsup := UnsupInstr | UnsupExt | UnsupNretFallback | UnsupBoxed.
 
 (* ---------- machine state ---------- *)
 (* Machine.stack, Machine.global_vals, global_states.pos, global_states.rawdata *)
